@@ -387,3 +387,20 @@ func TestC02Concurrent(t *testing.T) {
 }
 
 func init() { reg("C02.concurrent", checkC02) }
+
+// TestC02AttrCache: the process-wide attribute cache under concurrent renders with more
+// (type, attribute) pairs in play than it holds, so that entries are evicted while other
+// goroutines are between finding and using them. A wrong answer, an error, a data race or a
+// render that never returns (a lock left held on the eviction path) is a violation.
+func TestC02AttrCache(t *testing.T) {
+	r := NewRec(t, "C02", "16 goroutines x 4000 (thorough 20000) pseudo-random renders of {{ x.A }} over 1100 / 1600 distinct struct types (the attribute cache holds 1000 entries), under the race detector and a 120 s watchdog; every answer compared with the known field value; all cases non-trivial")
+	defer r.Flush()
+	for i, pairs := range []int{1100, 1600} {
+		c := C20ConcCase{Goroutines: 16, Pairs: pairs, Lookups: scale(4000, 20000), Seed: 11 + i}
+		r.Case(fmt.Sprint(c), true, c)
+		r.Case(fmt.Sprint(c, "b"), true, c)
+		if err := checkC20Conc(c); err != nil {
+			r.FailEnum(t, "C20.conc", c, err)
+		}
+	}
+}
